@@ -38,7 +38,7 @@ PROPS = {
     "C08": dict(profiles=["alloc", "core", "value"], level="proof"),
     "C09": dict(profiles=["iters"], level="proof"),
     "C10": dict(profiles=["iters"], level="proof"),
-    "C11": dict(profiles=["core", "alloc"], level="proof", extra=["selfcheck"]),
+    "C11": dict(profiles=["core", "alloc"], level="proof", extra=["selfcheck", "genwrap"]),
     "C12": dict(profiles=["core", "alloc"], level="proof"),
     "C13": dict(profiles=["value", "core"], level="proof", extra=["selfcheck", "determinism"]),
     "C14": dict(profiles=["print"], level="proof"),
@@ -596,7 +596,7 @@ def write_evidence(pid, tier, seed, proof, audit, results, extra, wall, violatio
     ev = {"property_id": pid, "tier": tier, "seed": seed, "level": level, "coverage": cov,
           "assumptions": ["the Gallina model mirrors the Rust code function by function; this is validated, not proved, by the correspondence run recorded here",
                           "usize arithmetic is unbounded in the model (fewer than 2^64 nodes)",
-                          "release semantics (dbg=false) for the refinement theorems; debug builds are covered by the correspondence run"],
+                          "refinement theorems are stated for release semantics (dbg=false); proofs/DebugProofs.v (debug_agrees) transfers them to debug builds; both profiles are run by the correspondence check"],
           "wall_s": round(wall, 2), "violations": violations}
     os.makedirs(os.path.join(VERIF, "evidence"), exist_ok=True)
     json.dump(ev, open(os.path.join(VERIF, "evidence", pid + ".json"), "w"), indent=1)
